@@ -7,7 +7,16 @@ from hypothesis import strategies as st
 from vlib.core import HypClause
 from vlib import util as U
 
-RULE = ("Hypothesis draws a prescription of 1..3 surfaces (plane / sphere / conic / off-axis conic; single surfaces "
+RULE = ("[Round-8 hardening, clause trace_batch - rays of one batch are independent of each other: one strongly curved sphere / conic / off-axis conic (radius of curvature 10 .. 0.1; "
+        "paraboloids and their neighbours k = -1, -0.99, -1.01 most often, also k = -3 .. 1), reflecting, refracting or 'eval', placed and tilted; 99 .. 2500 easy rays (collimated grid, "
+        "random rays tilted <= 8 deg, or one ray repeated; rarely 32771 / 65539 rays) and 1..5 steep / skew rays (40 .. 80 deg off the axis, travelling either way, hit points out to 6 / |c|) "
+        "chosen from a seed-expanded pool of 2000 as the ones that need the most iterations of a harness model of the documented Newton search (8 .. 15; 12 or more in about a third of "
+        "the cases), put at drawn positions of the batch (first, last, anywhere); optionally rays that miss the surface altogether and rays that are NaN on input share the batch "
+        "(nothing is asserted about those), a warm-up trace (float32 / small batch) or a failing request comes first.  Every ray inside the quantifier is checked step by step as in the "
+        "other clauses (on its line, on the sag, |S'| = 1, law of reflection / vector Snell law); each steep ray traced alone - as a batch of one and as the documented 1-D ray - and the "
+        "whole batch traced in reverse order must give the same intersections and directions (1e-9); intersect() called directly on the local-frame batch must return the same "
+        "points and a vector along the analytic normal.]  "
+        "Hypothesis draws a prescription of 1..3 surfaces (plane / sphere / conic / off-axis conic; single surfaces "
         "also rotationally symmetric and freeform Q-type built through the public Surface(...) constructor from "
         "Q2d_and_der + surface_normal_from_cylindrical_derivatives), each reflecting or refracting with its own index, "
         "position P and tilt R (none / about z only / general zyx), and a bundle of rays given in the first surface's "
@@ -61,6 +70,13 @@ ASSUMPTIONS = [
     "the intersection is ill-conditioned there",
     "implicit precondition of the Spencer & Murty procedure: the point where the ray crosses the surface's local z = 0 "
     "plane (start of Newton's iteration) lies inside the real-sag region as well (rays violating it are removed, counted)",
+    "clause trace_batch: a steep ray is inside the quantifier when a harness model of step II of the documented procedure (start where the ray crosses the local z = 0 plane, Newton's "
+    "iteration on z - sag along the ray, closed-form sag and gradient) converges within 40 of the 100 iterations prysm allows, to half the step size prysm asks for, with |F'| >= 0.05 at "
+    "every iterate (no wild jumps) and every iterate inside 0.95 of the real-sag radius, to a point ahead of the ray origin, inside 0.9 of the real-sag radius, not grazing (|F'| >= 0.1) and "
+    "below 0.98 of the critical angle; which of two intersections ahead of the origin is found is not asserted (either is on the ray and on the surface).  The model only selects rays; "
+    "what is asserted is geometry (measured on the unchanged tree: all 250000 selected rays of a scan converge to the modelled point)",
+    "a ray's trace does not depend on what else is in the batch or where it stands in it (the raytrace docstring: 'there is no reason all rows of P and S must belong to the same ray "
+    "bundle'); alone vs in the batch is compared to 1e-9, not bit for bit",
     "raytrace documents a surface by the attributes typ / P / R / n (and uses sag_normal): assigning them on a built Surface "
     "(typ an STYPE constant, P a float64 vector, R a matrix or None, n a callable) is a valid way to place it",
     "P and S 'of any float dtype' are also accepted as what np.asarray makes of lists; whole-number rays written as Python ints "
@@ -449,10 +465,11 @@ def _copy_arg(a):
 
 def _same_arg(before, after):
     if isinstance(before, np.ndarray):
-        return isinstance(after, np.ndarray) and before.dtype == after.dtype and before.shape == after.shape and np.array_equal(before, after)
+        return (isinstance(after, np.ndarray) and before.dtype == after.dtype and before.shape == after.shape
+                and np.array_equal(before, after, equal_nan=before.dtype.kind == 'f'))
     if isinstance(before, (list, tuple)):
         return type(before) is type(after) and len(before) == len(after) and all(_same_arg(p, q) for p, q in zip(before, after))
-    return type(before) is type(after) and before == after
+    return type(before) is type(after) and (before == after or (isinstance(before, float) and before != before and after != after))
 
 
 def check_frame(ctx, surf, spec):
@@ -1100,6 +1117,281 @@ def strat_prescription(tier):
             lambda c: len(c['rays']) + c['nrand'] >= 1)
 
 
+# ---- batch independence: a few slowly converging rays among many easy ones -------------------------------------------------------
+BATCH_SIM_MAXIT = 40        # the documented iteration limit is 100
+BATCH_POOL = 2000
+
+
+def newton_model(mdl, P0, S, maxit=BATCH_SIM_MAXIT, eps=1e-14):
+    """harness model of step II of the Spencer & Murty procedure, used to decide the domain only: start where the ray crosses the
+    local z = 0 plane, Newton's iteration on F(s) = z(s) - sag(x(s), y(s)) along the ray, closed-form sag and gradient.
+    Returns (s measured from P0, number of iterations, ok, smallest |F'| met): ok = converged (step below eps, half of what prysm
+    asks for) within maxit iterations (40 of the 100 prysm allows) with every iterate inside 0.95 of the real-sag radius."""
+    n = len(P0)
+    s0 = -P0[:, 2] / S[:, 2]
+    P1 = P0 + s0[:, None] * S
+    s = np.zeros(n)
+    it = np.full(n, maxit + 1)
+    done = np.zeros(n, dtype=bool)
+    ok = np.ones(n, dtype=bool)
+    minfp = np.full(n, np.inf)
+    for j in range(maxit):
+        p = P1 + s[:, None] * S
+        with np.errstate(all='ignore'):
+            inside = mdl.inside(p[:, 0], p[:, 1], 0.95)
+            z = mdl.sag(p[:, 0], p[:, 1])
+            zx, zy = mdl.grad(p[:, 0], p[:, 1])
+            F = p[:, 2] - z
+            Fp = S[:, 2] - zx * S[:, 0] - zy * S[:, 1]
+            sn = s - F / Fp
+        act = ~done
+        ok &= ~act | (inside & np.isfinite(sn))
+        minfp = np.where(act & ok, np.minimum(minfp, np.abs(Fp)), minfp)
+        conv = act & ok & (np.abs(sn - s) < eps * np.maximum(1.0, np.abs(sn)))
+        it[conv] = j + 1
+        done |= conv
+        s = np.where(act & ok, sn, s)
+        if (done | ~ok).all():
+            break
+    return s0 + s, it, done & ok, minfp
+
+
+def batch_domain(mdl, typ, n_in, n_out, P0, S):
+    """which rays of (P0, S) (local frame) are inside the quantifier for the batch clause, by harness arithmetic only: the modelled
+    iteration converges tamely (|F'| >= 0.05 at every iterate) to a point ahead of the ray origin, on the sag, inside 0.9 of the
+    real-sag radius, not grazing, and (refraction) below 0.98 of the critical angle.  Returns (valid, iterations)."""
+    with np.errstate(all='ignore'):
+        s, it, ok, minfp = newton_model(mdl, P0, S)
+        s_ = np.where(ok, s, 0.0)
+        P1 = P0 + s_[:, None] * S
+        valid = ok & (minfp >= 0.05) & (s > 1e-9) & mdl.inside(P1[:, 0], P1[:, 1], 0.9)
+        e = np.abs(P1[:, 2] - mdl.sag(P1[:, 0], P1[:, 1]))
+        valid &= np.where(np.isfinite(e), e, np.inf) <= 1e-10 * (1 + np.abs(P1).max(axis=1))
+        nrm = mdl.normal(P1[:, 0], P1[:, 1])
+    valid &= np.isfinite(nrm).all(axis=1)
+    nrm = np.where(valid[:, None], nrm, np.array([0, 0, 1.0]))
+    ci = dot(S, nrm)
+    valid &= np.abs(ci / nrm[:, 2]) >= MIN_FPRIME
+    if typ == 'refr':
+        valid &= (n_in / n_out) * np.sqrt(np.clip(1 - ci * ci, 0, None)) <= 0.98
+    return valid, it
+
+
+def steep_pool(case, mdl):
+    """seed-expanded pool of steep / skew rays in the local frame: hit points out to 6 / |c| from the conicoid's axis (0.85 of the
+    real-sag radius), directions 40 .. 80 degrees off the axis travelling either way, origins 0.2 / |c| .. 3 / |c| before the hit"""
+    r = U.rng_of(case['seed'], 23)
+    n = BATCH_POOL
+    c = abs(mdl.c)
+    rmax = min(0.85 * mdl.rho_real, 6.0 / c, 2.5 * RHO_CAP)
+    rho = np.sqrt(r.uniform(0, 1, n)) * rmax
+    az = r.uniform(0, 2 * math.pi, n)
+    hx, hy = rho * np.cos(az) - mdl.sx, rho * np.sin(az) - mdl.sy
+    with np.errstate(all='ignore'):
+        hz = mdl.sag(hx, hy)
+    th = np.radians(r.uniform(40, 80, n))
+    ph = r.uniform(0, 2 * math.pi, n)
+    S = np.stack([np.sin(th) * np.cos(ph), np.sin(th) * np.sin(ph), np.cos(th)], axis=1) * np.where(r.uniform(size=n) < 0.5, 1.0, -1.0)[:, None]
+    d = r.uniform(0.2, 3.0, n) / c
+    P0 = np.stack([hx, hy, hz], axis=1) - d[:, None] * S
+    fin = np.isfinite(P0).all(axis=1)
+    return P0[fin], S[fin]
+
+
+def easy_bundle(case, mdl):
+    """the many ordinary rays of the batch, local frame: a collimated square grid, gently tilted random rays, or one ray repeated"""
+    kind, n = case['easy']['kind'], int(case['easy']['n'])
+    dirz = float(case['dirz'])
+    r = U.rng_of(case['seed'], 29)
+    R = mdl.rho_max
+    if kind == 'grid':
+        m = int(math.ceil(math.sqrt(n)))
+        g = np.linspace(-R / math.sqrt(2), R / math.sqrt(2), m)
+        gx, gy = np.meshgrid(g, g)
+        aim = np.stack([gx.ravel()[:n], gy.ravel()[:n], np.zeros(n)], axis=1)
+        S = np.tile(np.array([0.0, 0.0, dirz]), (n, 1))
+    else:
+        m = 1 if kind == 'same-ray' else n
+        rho = np.sqrt(r.uniform(0, 1, m)) * R
+        az = r.uniform(0, 2 * math.pi, m)
+        aim = np.stack([rho * np.cos(az), rho * np.sin(az), np.zeros(m)], axis=1)
+        tilt = np.radians(r.uniform(0, 8, m))
+        taz = r.uniform(0, 2 * math.pi, m)
+        S = np.stack([np.sin(tilt) * np.cos(taz), np.sin(tilt) * np.sin(taz), np.cos(tilt)], axis=1) * dirz
+        if kind == 'same-ray':
+            aim, S = np.tile(aim, (n, 1)), np.tile(S, (n, 1))
+    return aim - float(case['d']) * S, S
+
+
+def check_batch(case, ctx):
+    """rays of one batch are independent of each other: a few steep, slowly converging rays traced among hundreds to thousands of easy ones,
+    at any position of the batch, land on the surface and obey the laws like every other ray, and come out as when traced alone."""
+    from prysm.x.raytracing import spencer_and_murty as sm
+    spec = dict(case['surfaces'][0])
+    mdl = Model(spec)
+    surf = build(ctx, spec, mdl, None)
+    P, R = check_frame(ctx, surf, spec)
+    n_amb = float(case['n_ambient'])
+    typ = spec['typ']
+    n_out = float(spec['n']) if typ == 'refr' else n_amb
+    # the easy majority
+    Pe, Se = easy_bundle(case, mdl)
+    _, _, ve = ref_step(mdl, typ, n_amb, n_out, Pe, Se)
+    # the steep minority: the slowest-converging rays of the pool that are inside the quantifier
+    Pp, Sp = steep_pool(case, mdl)
+    vp, itp = batch_domain(mdl, typ, n_amb, n_out, Pp, Sp)
+    ctx.tally('steep_rays_in_pool', len(Pp))
+    ctx.tally('steep_rays_inside_domain', int(vp.sum()))
+    idx = np.nonzero(vp)[0]
+    if idx.size == 0:
+        ctx.exclude('no steep ray of the pool is inside the stated domain')
+    idx = idx[np.argsort(-itp[idx], kind='stable')][:int(case['nhard'])]
+    Ph, Sh, ith = Pp[idx], Sp[idx], itp[idx]
+    # rays that do not meet the surface at all share the batch as well; nothing is asserted about them
+    miss = np.zeros(len(Pp), dtype=bool)
+    if case.get('misses', 0):
+        with np.errstate(all='ignore'):
+            nohit = ~np.isfinite(mdl.hit(Pp, Sp)) & ~vp & ~newton_model(mdl, Pp, Sp, maxit=25)[2]
+        miss[np.nonzero(nohit)[0][:int(case['misses'])]] = True
+    Pm, Sm = Pp[miss], Sp[miss]
+    if case.get('nan_rows', 0):
+        # rays that were vignetted upstream arrive as NaN (that is how raytrace itself marks them); the other rays must not notice
+        q = int(case['nan_rows'])
+        Pm = np.concatenate([Pm, np.full((q, 3), np.nan)])
+        Sm = np.concatenate([Sm, np.tile(np.array([0.0, 0.0, float(case['dirz'])]), (q, 1))])
+    # assemble: every special ray at its drawn position (in thousandths of the batch length)
+    nspecial = len(Ph) + len(Pm)
+    ntot = len(Pe) + nspecial
+    slots = list(dict.fromkeys(min(ntot - 1, int(w) * ntot // 1000) for w in case['where']))[:nspecial]
+    k = ntot // 3
+    while len(slots) < nspecial:          # collisions: next free slots
+        if k not in slots:
+            slots.append(k)
+        k += 1
+    slots = np.array(sorted(slots))
+    order = U.rng_of(case['seed'], 31).permutation(nspecial)
+    Pl = np.empty((ntot, 3))
+    Sl = np.empty((ntot, 3))
+    examined = np.zeros(ntot, dtype=bool)
+    is_hard = np.zeros(ntot, dtype=bool)
+    rest = np.ones(ntot, dtype=bool)
+    rest[slots] = False
+    Pl[rest], Sl[rest], examined[rest] = Pe, Se, ve
+    Psp, Ssp = np.concatenate([Ph, Pm]), np.concatenate([Sh, Sm])
+    Pl[slots], Sl[slots] = Psp[order], Ssp[order]
+    examined[slots] = (order < len(Ph))
+    is_hard[slots] = (order < len(Ph))
+    Pg, Sg = frame_to_global(Pl, Sl, P, R)
+    slow = int((ith >= 12).sum())
+    ctx.label('kind:' + mdl.kind, 'typ:' + typ, 'easy:' + case['easy']['kind'], 'R:' + ('none' if R is None else 'tilted'),
+              'batch-size:%s' % ('<100' if ntot < 100 else '100-999' if ntot < 1000 else '1000-9999' if ntot < 10000 else '>2**15' if ntot < 65536 else '>2**16'),
+              'slowest-ray-iterations:%s' % ('<8' if ith.max() < 8 else '8-11' if ith.max() < 12 else '12-15' if ith.max() < 16 else '>=16'),
+              'slow-rays(>=12 iterations):%s' % ('none' if slow == 0 else '<=1%-of-batch' if slow * 100 <= ntot else '>1%-of-batch'),
+              'k:' + ('-1' if mdl.k == -1 else '0' if mdl.k == 0 else '<-1' if mdl.k < -1 else 'other'),
+              'hard-ray-at:' + ('first' if is_hard[0] else 'last' if is_hard[-1] else 'inside'),
+              'rays-not-examined-in-batch:%s' % ('none' if len(Pm) == 0 else 'misses' if not case.get('nan_rows', 0) else 'nan-input' if len(Pm) == int(case['nan_rows']) else 'misses+nan-input'),
+              'rays-as:' + case.get('pform', 'f64'))
+    ctx.tally('rays_traced', ntot)
+    ctx.tally('rays_examined', int(examined.sum()))
+    ctx.nt(bool(is_hard.any()) and ntot >= 100)
+    if case.get('after_error', False):
+        # a request that fails (positions of the wrong dimensionality) and is caught by the caller comes first
+        ctx.label('after-a-failed-request')
+        try:
+            sm.raytrace([surf], Pg[:, :2].copy(), Sg.copy(), 0.6328, n_amb)
+        except Exception:      # noqa - the failing request itself is not examined
+            pass
+    form = case.get('pform', 'f64')
+    tol = Tol(False)
+    warm = case.get('warm')
+    if warm:
+        # the same Surface object used before the checked trace: with the easy rays only at float32, or with a small batch
+        ctx.label('warm-up:' + warm)
+        w = np.nonzero(examined & ~is_hard)[0][:64 if warm == 'small-batch' else None]
+        if w.size:
+            dt = np.float32 if warm == 'f32' else np.float64
+            ctx.call(sm.raytrace, [surf], Pg[w].astype(dt), Sg[w].astype(dt), 0.6328, n_amb)
+    Parg, Sarg, Pv, Sv = ray_args(Pg, Sg, form, False)
+    ph, sh = traced(ctx, sm, [surf], Parg, Sarg, 0.6328, n_amb, 1, False, ntot, 'batch of %d rays' % ntot)
+    ph, sh = ph.astype(np.float64), sh.astype(np.float64)
+    real_in = np.isfinite(Pv).all(axis=1)
+    U.check_equal(ph[0][real_in], Pv[real_in], 'raytrace:history0', 'P_hist[0] is not the input position')
+    U.check_equal(sh[0], Sv, 'raytrace:history0', 'S_hist[0] is not the input direction')
+    # every examined ray: on its line, on the sag, unit direction, law of reflection / refraction - the slow ones first (precise bucket)
+    hard_idx = np.nonzero(is_hard)[0]
+    fin = np.isfinite(ph[1][hard_idx]).all(axis=1) & np.isfinite(sh[1][hard_idx]).all(axis=1)
+    if not fin.all():
+        i = int(hard_idx[int(np.argmin(fin))])
+        ctx.fail('nan:ray:steep-ray-in-a-large-batch', 'surface (%s %s c=%g k=%g off=(%g,%g)): the ray P=%s S=%s (global), which meets the surface after %d iterations of the modelled '
+                 'Newton search, comes back as P\'=%s S\'=%s when traced at position %d of a batch of %d rays (%d of them need 12 iterations or more)' % (
+                     mdl.kind, typ, mdl.c, mdl.k, mdl.sx, mdl.sy, _fmt(Pg[i]), _fmt(Sg[i]), int(ith.max()), _fmt(ph[1][i]), _fmt(sh[1][i]), i, ntot, slow))
+    verify_history(ctx, ph[:, examined], sh[:, examined], [mdl], [spec], [(P, R)], n_amb, tol, 'batch')
+    L = max(1.0, float(np.abs(Pg[examined]).max()))
+    # the same rays traced alone - as a batch of one and as the documented single 1-D ray
+    for i in hard_idx:
+        for single in (False, True):
+            Pa, Sa, _, _ = ray_args(Pg[i:i + 1], Sg[i:i + 1], 'f64', single)
+            p1, s1 = traced(ctx, sm, [surf], Pa, Sa, 0.6328, n_amb, 1, single, 1, 'ray traced alone')
+            dp = float(np.abs(p1[1][0] - ph[1][i]).max()) if np.isfinite(p1[1][0]).all() else math.inf
+            ds = float(np.abs(s1[1][0] - sh[1][i]).max()) if np.isfinite(s1[1][0]).all() else math.inf
+            ctx.require(dp <= POS_TOL * L and ds <= LAW_TOL, 'raytrace:batch-dependence',
+                        'the ray P=%s S=%s traced alone (%s) gives P\'=%s S\'=%s, at position %d of a batch of %d rays P\'=%s S\'=%s' % (
+                            _fmt(Pg[i]), _fmt(Sg[i]), '1-D' if single else 'shape (1, 3)', _fmt(p1[1][0]), _fmt(s1[1][0]), i, ntot, _fmt(ph[1][i]), _fmt(sh[1][i])))
+    # the other public entry point to step II: intersect(P0, S, FFp) in the local frame of the surface returns the same intersections
+    # and a vector along the surface normal there
+    Pj, rj = ctx.call(sm.intersect, Pl.copy(), Sl.copy(), surf.sag_normal)
+    Pj, rj = np.asarray(Pj, dtype=np.float64), np.asarray(rj, dtype=np.float64)
+    U.check_shape(Pj, (ntot, 3), 'intersect')
+    U.check_shape(rj, (ntot, 3), 'intersect')
+    Pj_l = frame_to_local(ph[1], sh[0], P, R)[0]
+    with np.errstate(all='ignore'):
+        dj = np.abs(Pj - Pj_l).max(axis=1)[examined]
+        nrm = mdl.normal(Pj[:, 0], Pj[:, 1])
+        rn = rj / np.linalg.norm(rj, axis=1, keepdims=True)
+        dn = np.minimum(np.abs(rn - nrm).max(axis=1), np.abs(rn + nrm).max(axis=1))[examined]
+    dj, dn = np.where(np.isfinite(dj), dj, np.inf), np.where(np.isfinite(dn), dn, np.inf)
+    i = int(np.argmax(dj))
+    ctx.require(float(dj.max()) <= POS_TOL * L * 10, 'intersect:differs-from-raytrace', 'intersect() called directly on the batch of %d rays in the local frame: examined ray %d meets the surface at %s, '
+                'raytrace() put it at %s (local)' % (ntot, i, _fmt(Pj[examined][i]), _fmt(Pj_l[examined][i])))
+    i = int(np.argmax(dn))
+    ctx.require(float(dn.max()) <= LAW_TOL, 'intersect:normal', 'intersect() called directly: the vector returned as surface normal at %s is %s, the analytic normal is +-%s' % (
+        _fmt(Pj[examined][i]), _fmt(rj[examined][i]), _fmt(nrm[examined][i])))
+    kept = (ph.copy(), sh.copy())
+    # the batch in reverse order: the same rays, the same answers
+    Parg2, Sarg2, _, _ = ray_args(Pg[::-1], Sg[::-1], form, False)
+    ph2, sh2 = traced(ctx, sm, [surf], Parg2, Sarg2, 0.6328, n_amb, 1, False, ntot, 'batch in reverse order')
+    ctx.require(np.array_equal(ph, kept[0], equal_nan=True) and np.array_equal(sh, kept[1], equal_nan=True), 'raytrace:result-overwritten',
+                'the histories returned by the first raytrace() changed when the same surface was traced again')
+    ph2, sh2 = ph2.astype(np.float64)[:, ::-1], sh2.astype(np.float64)[:, ::-1]
+    with np.errstate(all='ignore'):
+        dp = np.abs(ph2[1] - ph[1]).max(axis=1)[examined]
+        ds = np.abs(sh2[1] - sh[1]).max(axis=1)[examined]
+    dp, ds = np.where(np.isfinite(dp), dp, np.inf), np.where(np.isfinite(ds), ds, np.inf)
+    i = int(np.argmax(dp))
+    ctx.require(float(dp.max()) <= POS_TOL * L and float(ds.max()) <= LAW_TOL, 'raytrace:batch-dependence',
+                'the batch of %d rays traced in reverse order: examined ray %d lands at %s instead of %s (largest differences %.3g in position, %.3g in direction)' % (
+                    ntot, i, _fmt(ph2[1][examined][i]), _fmt(ph[1][examined][i]), float(dp.max()), float(ds.max())))
+
+
+def strat_batch(tier):
+    off_s = st.tuples(st.sampled_from(['x', 'y']), st.integers(-100, 100).filter(lambda v: v != 0).map(lambda v: v / 100)).map(list)
+    surf = st.fixed_dictionaries({
+        'kind': st.sampled_from(['conic', 'conic', 'conic', 'conic', 'offaxis', 'offaxis', 'sphere']),
+        # strongly curved surfaces: radii of curvature 10 .. 0.1
+        'c': st.sampled_from([0.25, -0.25, 1.0, 0.1, 2.0, -0.5, 10.0, 0.15, -4.0]),
+        # paraboloids (and their neighbours) are where Newton's iteration from the z = 0 plane is slowest for well-conditioned rays
+        'k': st.sampled_from([-1.0, -1.0, -1.0, -1.0, -1.0, -1.0, -0.99, -1.01, -3.0, 0.0, -0.5, -1.5, 1.0, -0.9]),
+        'off': off_s, 'typ': st.sampled_from(['refl', 'refl', 'refr', 'refr', 'eval']), 'n': _i(1000, 1900, 1000), 'dn': st.none(),
+        'P': st.tuples(_i(-50, 50, 10), _i(-50, 50, 10), _i(-500, 500, 10)).map(list), 'R': tilt_s(20), 'ctor': ctor_s()}).map(_fit_P)
+    sizes = [99, 100, 128, 300, 400, 1000, 1000, 2500] + ([32771] if tier == 'quick' else [32771, 65539, 65539])
+    return st.fixed_dictionaries({
+        'surfaces': st.lists(surf, min_size=1, max_size=1), 'n_ambient': st.one_of(st.just(1.0), _i(1000, 1900, 1000)),
+        'easy': st.fixed_dictionaries({'kind': st.sampled_from(['grid', 'random', 'same-ray', 'grid', 'random']), 'n': st.sampled_from(sizes)}),
+        'nhard': st.integers(1, 5), 'where': st.lists(st.one_of(st.sampled_from([1000, 0, 500]), st.integers(0, 1000).map(lambda v: (v * 7919) % 1001)), min_size=8, max_size=8),
+        'misses': st.sampled_from([0, 0, 0, 1, 3]), 'nan_rows': st.sampled_from([0, 0, 0, 0, 2]), 'warm': st.sampled_from([None, None, None, 'f32', 'small-batch']), 'seed': U.seeds, 'dirz': st.sampled_from([1, 1, -1]), 'd': _i(10, 300, 10),
+        'pform': st.sampled_from(['f64', 'f64', 'f64', 'F', 'strided', 'list']), 'after_error': st.sampled_from([False, False, False, True])})
+
+
 # ---- reflect / refract called directly -----------------------------------------------------------------------------
 def strat_laws(tier):
     return st.fixed_dictionaries({
@@ -1309,6 +1601,7 @@ CLAUSES = [
     HypClause('trace_single', strat_single, check_trace, examples={'quick': 700, 'thorough': 2800}, shards={'quick': 4, 'thorough': 12}),
     HypClause('trace_prescription', strat_prescription, check_trace, examples={'quick': 400, 'thorough': 1800}, shards={'quick': 3, 'thorough': 10}),
     HypClause('trace_argtypes', strat_argtypes, check_trace, examples={'quick': 350, 'thorough': 1800}, shards={'quick': 2, 'thorough': 8}),
+    HypClause('trace_batch', strat_batch, check_batch, examples={'quick': 120, 'thorough': 600}, shards={'quick': 3, 'thorough': 8}),
     HypClause('laws_direct', strat_laws, check_laws, examples={'quick': 600, 'thorough': 4000}, shards={'quick': 1, 'thorough': 4}),
     HypClause('frames', strat_frames, check_frames, examples={'quick': 500, 'thorough': 4000}, shards={'quick': 1, 'thorough': 4}),
 ]
